@@ -269,3 +269,10 @@ package catalog
 //@   ensures[C05,@tag-not-replaced] forall(q, TagName, imp(old(has(c.Tags.data, q)), has(c.Tags.data, q) && c.Tags.data[q] == old(c.Tags.data[q])))
 //@   ensures[C05,@tag-registered] result != nil
 //@   ensures catInv(c)
+//@ extern (github.com/jsightapi/jsight-api-core/catalog.InteractionID).Path(i)
+//@   attr pure deterministic nopanic
+//@ extern (github.com/jsightapi/jsight-api-core/catalog.InteractionID).Protocol(i)
+//@   attr pure deterministic nopanic
+//@ func pathTagTitle(path)
+//@   attr trusted
+//@   modifies nothing
